@@ -3281,11 +3281,17 @@ impl Zeroconf {
 
                 if qtype == RRType::A || qtype == RRType::AAAA || qtype == RRType::ANY {
                     for service in self.my_services.values() {
-                        if service.get_status(if_index) != ServiceStatus::Announced {
+                        let service_hostname = dns_registry.resolve_name(service.get_hostname());
+
+                        // A name that finished probing is defended against other probers
+                        // even if the service still waits for its other names.
+                        let defending = qtype == RRType::ANY
+                            && msg.num_authorities() > 0
+                            && dns_registry.active.contains_key(service_hostname)
+                            && !dns_registry.probing.contains_key(service_hostname);
+                        if service.get_status(if_index) != ServiceStatus::Announced && !defending {
                             continue;
                         }
-
-                        let service_hostname = dns_registry.resolve_name(service.get_hostname());
 
                         if service_hostname.to_lowercase() == question.entry_name().to_lowercase() {
                             // Pick addresses based on the question type, not the
@@ -3347,7 +3353,12 @@ impl Zeroconf {
                     continue;
                 };
 
-                if service.get_status(if_index) != ServiceStatus::Announced {
+                let service_fullname = dns_registry.resolve_name(service.get_fullname());
+                let defending = qtype == RRType::ANY
+                    && msg.num_authorities() > 0
+                    && dns_registry.active.contains_key(service_fullname)
+                    && !dns_registry.probing.contains_key(service_fullname);
+                if service.get_status(if_index) != ServiceStatus::Announced && !defending {
                     continue;
                 }
 
